@@ -21,6 +21,7 @@ pub struct Bus {
     rx: mpsc::Receiver<Msg>,
     pub log: Vec<(String, [u8; 16])>,
     paused: Arc<AtomicBool>,
+    forward: Arc<AtomicBool>,
     hub2: UnixDatagram,
     _dummy: UnixDatagram,
     dummy_path: PathBuf,
@@ -64,6 +65,8 @@ impl Bus {
         let (d2, i2) = (dir.clone(), iface.to_string());
         let paused = Arc::new(AtomicBool::new(false));
         let p2 = paused.clone();
+        let forward = Arc::new(AtomicBool::new(true));
+        let fw2 = forward.clone();
         std::thread::spawn(move || {
             let mut buf = [0u8; 64];
             loop {
@@ -73,8 +76,10 @@ impl Bus {
                     let mut raw = [0u8; 16];
                     raw.copy_from_slice(&buf[..16]);
                     let from = addr.as_pathname().map(|p| p.to_string_lossy().to_string()).unwrap_or_default();
-                    for ep in endpoints_of(&d2, &i2) {
-                        if ep.to_string_lossy() != from { let _ = hub.send_to(&raw, &ep); }
+                    if fw2.load(Ordering::SeqCst) {
+                        for ep in endpoints_of(&d2, &i2) {
+                            if ep.to_string_lossy() != from { let _ = hub.send_to(&raw, &ep); }
+                        }
                     }
                     if tx.send(Msg::Frame(from, raw)).is_err() { break; }
                 } else if n == 17 {
@@ -93,7 +98,7 @@ impl Bus {
         let ctl = UnixDatagram::unbound().unwrap();
         ctl.connect(&hp).unwrap();
         let inj = UnixDatagram::unbound().unwrap();
-        Bus { dir, iface: iface.to_string(), ctl, inj, rx, log: Vec::new(), paused, hub2, _dummy, dummy_path }
+        Bus { dir, iface: iface.to_string(), ctl, inj, rx, log: Vec::new(), paused, forward, hub2, _dummy, dummy_path }
     }
 
     pub fn endpoints(&self) -> Vec<PathBuf> { endpoints_of(&self.dir, &self.iface) }
@@ -120,6 +125,11 @@ impl Bus {
         let _ = self.ctl.set_nonblocking(false);
     }
     pub fn release(&self) { self.paused.store(false, Ordering::SeqCst); }
+
+    /// whether frames are looped back to the sibling sockets of the same interface (SocketCAN does);
+    /// the step-by-step authority rig switches it off so that the receive handle only ever sees
+    /// the frames the script injects
+    pub fn set_forward(&self, on: bool) { self.forward.store(on, Ordering::SeqCst); }
 
     /// every write to the bus fails (EPERM) until `unfail_sends`: the hub socket is connect()ed to a
     /// dummy peer, so datagrams from every other socket are refused — what a downed interface or a
